@@ -159,6 +159,39 @@ fn random_tree(rng: &mut ChaCha8Rng, depth: u32) -> Exp {
     }
 }
 
+/// An absorbing rewrite candidate (0 * e, e * 0, false and e, true or e) whose other operand hides a division
+/// by zero or by a variable under further operators: numerator of a division by a constant, a block, a sum.
+fn absorber_tree(rng: &mut ChaCha8Rng) -> Exp {
+    let x = || leaf(0);
+    let y = || leaf(1);
+    let num = |v: f64| Exp::Number(v);
+    let div = |a: Exp, c: Exp| binary(3, a, c);
+    let bad = match rng.gen_range(0..4) {
+        0 => div(x(), num(0.0)),
+        1 => div(num(1.0), x()),
+        2 => div(y(), binary(1, x(), x())),
+        _ => div(num(2.0), binary(2, num(0.0), y())),
+    };
+    let wrapped = match rng.gen_range(0..8) {
+        0 => div(bad, num(2.0)),
+        1 => div(div(bad, num(4.0)), num(0.5)),
+        2 => unary(1, div(binary(0, y(), bad), num(2.0))),
+        3 => unary(0, div(bad, num(2.0))),
+        4 => binary(0, div(bad, num(2.0)), num(1.0)),
+        5 => Exp::Max(vec![div(bad, num(3.0)), num(1.0)]),
+        6 => binary(2, div(bad, num(2.0)), num(3.0)),
+        _ => bad,
+    };
+    match rng.gen_range(0..6) {
+        0 => binary(2, num(0.0), wrapped),
+        1 => binary(2, wrapped, num(0.0)),
+        2 => Exp::And(vec![y(), num(0.0), wrapped]),
+        3 => Exp::Or(vec![num(1.0), wrapped]),
+        4 => binary(11, num(0.0), wrapped),
+        _ => binary(2, num(-0.0), wrapped),
+    }
+}
+
 fn assignments() -> Vec<Vec<Q>> {
     let vals = [qi(0), qi(1), qi(2), qf(-3, 2)];
     let mut v = vec![];
@@ -597,7 +630,7 @@ impl Driver for C10 {
         for case in 0..40 {
             if case < 25 {
                 // random larger trees
-                let e = random_tree(&mut rng, 4);
+                let e = if case >= 21 { absorber_tree(&mut rng) } else { random_tree(&mut rng, 4) };
                 if only.is_some_and(|o| o != case) {
                     continue;
                 }
@@ -672,7 +705,7 @@ impl Driver for C10 {
         }
     }
     fn rule(&self) -> String {
-        "(a) Exp::simplify, Exp::flatten and flatten().simplify() on every expression tree with <= 2 operators over leaves {x, y, 0, 1, -0.0, 2, 0.5, 3} and operators neg, abs, not (both forms), + - * /, min, max, and/or (n-ary and BinOp forms), xor, implies, iff (units 0..99 sweep this finite set completely at every run), plus random trees of depth <= 4 with 1..3-ary and/or/min/max; each is evaluated exactly at the 16 assignments x,y in {0,1,2,-3/2}: defined values must be preserved, a defined expression must stay defined, a division by zero must not disappear, simplify must be idempotent. (b) G-model models whose literal products c*e are re-spelled as c*x, x*c, -(-c)*x, (0-(-c))*x, (c/2+c/2)*x, x/(1/c), 1*c*x, -((-c)*x), -(x) for c = -1, (c*d/d)*x with d of a few millionths (one model in five gets an extra row c*(x - k) rel r with c in {-1, -2, 2} so that products over sums with a constant occur): both twins are compiled; they must be accepted or rejected alike (same error kind) and, when accepted, accept the same assignments with the same best objective on the C01 point sets. (c) a coefficient computed in the where-section from integer and decimal literals (a - b, a + b, a * b, a / d, (a - b) * d, -a + b, a - b - d, a / d / e, a / d * e, optionally through a second constant), the same value written as a literal, and the same expression written inline must give the same coefficients (1e-12). non-trivial = expression with at least one decided assignment / twin pair with >= 3 decided assignments".into()
+        "(a) Exp::simplify, Exp::flatten and flatten().simplify() on every expression tree with <= 2 operators over leaves {x, y, 0, 1, -0.0, 2, 0.5, 3} and operators neg, abs, not (both forms), + - * /, min, max, and/or (n-ary and BinOp forms), xor, implies, iff (units 0..99 sweep this finite set completely at every run), plus random trees of depth <= 4 with 1..3-ary and/or/min/max, and absorbing operands (0 * e, e * 0, false and e, true or e) whose other operand hides a division by zero or by a variable under a division by a constant, a block, a sum or a product; each is evaluated exactly at the 16 assignments x,y in {0,1,2,-3/2}: defined values must be preserved, a defined expression must stay defined, a division by zero must not disappear, simplify must be idempotent. (b) G-model models whose literal products c*e are re-spelled as c*x, x*c, -(-c)*x, (0-(-c))*x, (c/2+c/2)*x, x/(1/c), 1*c*x, -((-c)*x), -(x) for c = -1, (c*d/d)*x with d of a few millionths (one model in five gets an extra row c*(x - k) rel r with c in {-1, -2, 2} so that products over sums with a constant occur): both twins are compiled; they must be accepted or rejected alike (same error kind) and, when accepted, accept the same assignments with the same best objective on the C01 point sets. (c) a coefficient computed in the where-section from integer and decimal literals (a - b, a + b, a * b, a / d, (a - b) * d, -a + b, a - b - d, a / d / e, a / d * e, optionally through a second constant), the same value written as a literal, and the same expression written inline must give the same coefficients (1e-12). non-trivial = expression with at least one decided assignment / twin pair with >= 3 decided assignments".into()
     }
     fn thresholds(&self, tier: Tier) -> Thresholds {
         let s = tier.pick(1, 10);
